@@ -29,6 +29,9 @@ pub enum TOp {
     /// delete one of the artifacts this thread may delete (its share of the setup artifacts and
     /// the ones it created)
     Delete(u16),
+    /// delete one of the SETUP artifacts whichever thread it was dealt to: two threads may delete
+    /// the same artifact at once; exactly one of them may win, the other must get NotFound
+    DeleteAny(u16),
     /// incremental collection; `true`: simulated time passes first
     Gc(bool),
     FullGc,
@@ -51,6 +54,7 @@ pub fn sched_strategy(t: Tier) -> impl Strategy<Value = SchedCase> {
         5 => d().prop_map(TOp::Put),
         2 => prop::collection::vec(d(), 1..=3).prop_map(TOp::Stream),
         4 => any::<u16>().prop_map(TOp::Delete),
+        2 => any::<u16>().prop_map(TOp::DeleteAny),
         2 => any::<bool>().prop_map(TOp::Gc),
         1 => Just(TOp::FullGc),
     ];
@@ -84,6 +88,8 @@ struct OpRec {
     /// registry index of the artifact created / deleted
     art: Option<usize>,
     err: Option<String>,
+    /// a DeleteAny that was told the artifact does not exist (another delete must have won)
+    not_found: bool,
 }
 
 impl OpRec {
@@ -98,6 +104,8 @@ struct ArtRec {
     bytes: Vec<u8>,
     keys: Vec<String>,
     deleted: bool,
+    /// scripted deletes of it that returned Ok
+    delete_oks: u32,
     /// thread allowed to delete it
     owner: usize,
     /// (thread, op index) of the operation that wrote it; None for setup artifacts
@@ -131,7 +139,7 @@ pub fn sched_check(case: &SchedCase, ctx: &mut CaseCtx) -> Result<(), Fail> {
                 } else {
                     let mut r = registry.lock().unwrap();
                     let owner = r.len() % n;
-                    r.push(ArtRec { id, bytes, keys, deleted: false, owner, writer: None });
+                    r.push(ArtRec { id, bytes, keys, deleted: false, delete_oks: 0, owner, writer: None });
                 }
             },
             SetupOp::Tick => age_all(blob.store()),
@@ -149,7 +157,7 @@ pub fn sched_check(case: &SchedCase, ctx: &mut CaseCtx) -> Result<(), Fail> {
                 sched::op_boundary();
                 let start = seq.fetch_add(1, Ordering::SeqCst);
                 let opidx = log.lock().unwrap().len();
-                let mut rec = OpRec { kind: K::W, start, end: 0, keys: Vec::new(), art: None, err: None };
+                let mut rec = OpRec { kind: K::W, start, end: 0, keys: Vec::new(), art: None, err: None, not_found: false };
                 match op {
                     TOp::Put(d) => {
                         let bytes = d.bytes(c);
@@ -161,7 +169,7 @@ pub fn sched_check(case: &SchedCase, ctx: &mut CaseCtx) -> Result<(), Fail> {
                             Ok(id) => {
                                 let mut r = registry.lock().unwrap();
                                 rec.art = Some(r.len());
-                                r.push(ArtRec { id, bytes, keys: rec.keys.clone(), deleted: false, owner: ti, writer: Some((ti, opidx)) });
+                                r.push(ArtRec { id, bytes, keys: rec.keys.clone(), deleted: false, delete_oks: 0, owner: ti, writer: Some((ti, opidx)) });
                             },
                             Err(e) => rec.err = Some(e.to_string()),
                         }
@@ -184,7 +192,7 @@ pub fn sched_check(case: &SchedCase, ctx: &mut CaseCtx) -> Result<(), Fail> {
                                     Ok(id) => {
                                         let mut r = registry.lock().unwrap();
                                         rec.art = Some(r.len());
-                                        r.push(ArtRec { id, bytes, keys: rec.keys.clone(), deleted: false, owner: ti, writer: Some((ti, opidx)) });
+                                        r.push(ArtRec { id, bytes, keys: rec.keys.clone(), deleted: false, delete_oks: 0, owner: ti, writer: Some((ti, opidx)) });
                                     },
                                     Err(e) => rec.err = Some(e.to_string()),
                                 }
@@ -209,7 +217,39 @@ pub fn sched_check(case: &SchedCase, ctx: &mut CaseCtx) -> Result<(), Fail> {
                         rec.keys = keys;
                         rec.art = Some(j);
                         match block_on(blob.delete(&id)) {
-                            Ok(()) => registry.lock().unwrap()[j].deleted = true,
+                            Ok(()) => {
+                                let mut r = registry.lock().unwrap();
+                                r[j].deleted = true;
+                                r[j].delete_oks += 1;
+                            },
+                            // only another thread's DeleteAny of the same setup artifact explains this
+                            Err(tensor_blob::BlobError::NotFound(_)) => rec.not_found = true,
+                            Err(e) => rec.err = Some(e.to_string()),
+                        }
+                    },
+                    TOp::DeleteAny(i) => {
+                        rec.kind = K::D;
+                        let target = {
+                            let r = registry.lock().unwrap();
+                            let cands: Vec<usize> = (0..r.len()).filter(|j| r[*j].writer.is_none() && !attempted.contains(j)).collect();
+                            if cands.is_empty() {
+                                None
+                            } else {
+                                let j = cands[pick(i, cands.len())];
+                                Some((j, r[j].id.clone(), r[j].keys.clone()))
+                            }
+                        };
+                        let Some((j, id, keys)) = target else { continue };
+                        attempted.insert(j);
+                        rec.keys = keys;
+                        rec.art = Some(j);
+                        match block_on(blob.delete(&id)) {
+                            Ok(()) => {
+                                let mut r = registry.lock().unwrap();
+                                r[j].deleted = true;
+                                r[j].delete_oks += 1;
+                            },
+                            Err(tensor_blob::BlobError::NotFound(_)) => rec.not_found = true,
                             Err(e) => rec.err = Some(e.to_string()),
                         }
                     },
@@ -274,6 +314,27 @@ pub fn sched_check(case: &SchedCase, ctx: &mut CaseCtx) -> Result<(), Fail> {
             };
             ctx.fail(format!("conc-op-error:{what}"), format!("a concurrent {what} returned an error: {e}"))?;
             return Ok(());
+        }
+    }
+    // a delete may be told "not found" only when another delete of the same artifact won
+    for o in ops.iter().filter(|o| o.not_found) {
+        let a = &arts[o.art.expect("delete records its artifact")];
+        if !a.deleted {
+            ctx.fail("conc-delete-notfound-for-live", "a delete was told the artifact does not exist, yet no delete of it returned Ok")?;
+            return Ok(());
+        }
+    }
+    for (j, a) in arts.iter().enumerate() {
+        let ds: Vec<&OpRec> = ops.iter().filter(|o| o.kind == K::D && o.art == Some(j)).collect();
+        if ds.len() > 1 {
+            ctx.label("several threads deleted the same artifact");
+            if ds.iter().enumerate().any(|(i, x)| ds[i + 1..].iter().any(|y| x.overlaps(y))) {
+                ctx.label("two deletes of the same artifact overlapped in time");
+                ctx.set_nontrivial();
+            }
+        }
+        if a.delete_oks > 1 {
+            ctx.label("two deletes of the same artifact both returned Ok");
         }
     }
     // overlap classes on shared chunks (evidence, and the categorical part of signatures)
